@@ -97,7 +97,8 @@ Lemma all_topology :
      disk_surface (ring_nverts N true k) (ring_faces N true k) (map (fun t => t) (zrange (N * k + 2))) /\
      disk_surface (ring_nverts N false k) (ring_faces N false k) (map (fun t => t + 1) (zrange (N * k)))) /\
   (forall N k, 1 <= N * k ->
-     disk_surface (flat_ring_nverts N k) (flat_ring_faces N k) (map (fun t => t) (zrange (N * k + 2)))).
+     disk_surface (flat_ring_nverts N k) (flat_ring_faces N k) (map (fun t => t) (zrange (N * k + 2)))) /\
+  (forall nu nv u, 2 <= nu -> 2 <= nv -> connected (unit_triangle_nverts nu nv u) (unit_triangle_faces nu nv u)).
 Proof.
   conjs; intros; unfold disk_surface, closed_surface; conjs.
   - apply grid_border; auto.
@@ -124,6 +125,7 @@ Proof.
   - rewrite flat_ring_faces_eq. apply fan_border; lia.
   - rewrite flat_ring_nverts_eq, flat_ring_faces_eq by lia. apply fan_connected; lia.
   - rewrite flat_ring_nverts_eq, flat_ring_faces_eq by lia. apply fan_euler; lia.
+  - apply tri_connected; auto.
 Qed.
 
 (* ---------------------------------------------------------------- 4. the constant-table solids (finite domain): everything,
@@ -220,7 +222,12 @@ Lemma all_on_surface :
   (forall P1 P2 P3 P4 v, tetrahedron_coords Rops P1 P2 P3 P4 v = [P1; P2; P3; P4]) /\
   (forall P1 P2 P3 P4 P5 P6 P7 P8 c t v, hexahedron_coords Rops P1 P2 P3 P4 P5 P6 P7 P8 c t v = [P1; P2; P3; P4; P5; P6; P7; P8]) /\
   (forall P1 P2 P3 P4 c v, let X := hexahedron_4pts_coords Rops P1 P2 P3 P4 c v in
-     List.nth 0 X P1 = P1 /\ List.nth 1 X P1 = P2 /\ List.nth 3 X P1 = P3 /\ List.nth 4 X P1 = P4 /\ length X = 8%nat).
+     List.nth 0 X P1 = P1 /\ List.nth 1 X P1 = P2 /\ List.nth 3 X P1 = P3 /\ List.nth 4 X P1 = P4 /\ length X = 8%nat) /\
+  (forall N d o k apex, exists rim, ring_coords Rops N d o k apex = apex :: rim /\ Forall on_unit_circle rim) /\
+  (forall (P1 P2 : vec R) (radius : R) N caps, (0 < dot3 (vsub Rops P2 P1) (vsub Rops P2 P1))%R ->
+     let a := vnormalized Rops (vsub Rops P2 P1) in
+     exists ringpts, cylinder_coords Rops P1 P2 radius N caps = ringpts ++ (if caps then [P1; P2] else []) /\
+       Forall (fun p => exists P, (P = P1 \/ P = P2) /\ dot3 (vsub Rops p P) a = 0%R /\ dist2 p P = (radius * radius)%R) ringpts).
 Proof.
   conjs; intros.
   - apply sphere_uv_on_sphere.
@@ -233,6 +240,8 @@ Proof.
   - reflexivity.
   - reflexivity.
   - apply hexahedron_4pts_corners.
+  - apply ring_rim_on_circle.
+  - apply cylinder_on_surface; auto.
 Qed.
 
 (* ---------------------------------------------------------------- 7. what a kernel-evaluated run-time check establishes *)
